@@ -247,7 +247,7 @@ pub fn run(ctx: &Ctx) -> Report {
     rep.assumptions.push("leftover bytes in free container sectors are not examined: the property speaks of the file's string data, i.e. the _StringData stream".into());
     let mut st = Stats::new();
     let max_ops = ctx.tier.pick(12, 30);
-    let v = search(ctx, "seq", ctx.tier.pick(5_000, 100_000), || seq::seq_case(W_FILES, max_ops), |c: &SeqCase, st| {
+    let v = search(ctx, "seq", ctx.tier.pick(25_000, 250_000), || seq::seq_case(W_FILES, max_ops), |c: &SeqCase, st| {
         st.eval();
         if st.wants_sample() && c.ops.len() > 5 && st.evaluations % 23 == 2 {
             st.sample(json!({"ops": c.ops.iter().map(|o| o.kind()).collect::<Vec<_>>()}));
@@ -255,7 +255,7 @@ pub fn run(ctx: &Ctx) -> Report {
         check_seq(c, st)
     }, &mut st);
     rep.push(v);
-    let v = search(ctx, "prefixes", ctx.tier.pick(800, 10_000), || seq::seq_case(W_FILES, 10), |c: &SeqCase, st| check_prefixes(c, st), &mut st);
+    let v = search(ctx, "prefixes", ctx.tier.pick(4_000, 40_000), || seq::seq_case(W_FILES, 10), |c: &SeqCase, st| check_prefixes(c, st), &mut st);
     rep.push(v);
     if ctx.tier == crate::engine::Tier::Thorough {
         for rows in [43_690u32, 43_691, 65_536] {
